@@ -121,7 +121,9 @@ def run_case(desc):
                           'allowed': allowed[t], 'b': n,
                           'unmerged_pairs': unmerged, 'ops': kinds,
                           'rules': obs.get('rules')})
+    ev = c03.case_evidence(case, obs)
     for it in items:
+        it.update(ev)
         it['rules'] = obs.get('rules')
         it['unmerged_pairs'] = unmerged
     nontrivial = stats['rebuilds_seen'] > 0
